@@ -5,7 +5,7 @@
    execution after every action; `no_err err_Cxx m` = the monitor reported no error of this property's class;
    `no_raise ls` = no request ended in an exception. *)
 From Coq Require Import ZArith List Bool.
-From CS Require Ops RevConv RevBridge4 RevolveRun Refuted DiskRun DiskBridge3 HRevRun HRevTop GenLang GenBasic.
+From CS Require Ops RevConv RevBridge4 RevolveRun Refuted DiskRun DiskBridge3 HRevRun HRevTop GenLang GenBasic GenLang2 GenTwo.
 From CS Require Import Actions NAdvance Multistage Exec Sched RunFacts Projections BasicInv MultistageRun AllocTotal TLBridge MixBridge.
 Import ListNotations.
 Open Scope Z_scope.
@@ -112,4 +112,15 @@ Theorem C12_basic_source_is_model :
 Proof. exact (@GenBasic.basic_from_start). Qed.
 Print Assumptions C12_basic_source_is_model.
 End M_C12_basic_source_is_model.
+
+(* THE MODEL OF TwoLevelCheckpointSchedule IS THE SOURCE: GenTwo.two_prog_model is the program (generator language GenLang2: named locals, the snapshots stack, //, *, min, n_advance, assert, del) that harness/translate.py produces from TwoLevelCheckpointSchedule._iterator; Gen/TwoLevelGen.v re-translates the current source on every run and proves it equal to that term by conversion.  Resuming that program request by request from the freshly constructed object gives, for every period, unit count, storage and trajectory the constructor accepts and under EVERY history of next() and finalize(k) calls, exactly the observations (outcome, n, r, max_n, is_exhausted) of the hand-written machine Online.run_ops (class KTwo) -- so the TwoLevel theorems of this file, stated on the extracted model, are theorems about the translated source (n_advance itself is tied by Gen/NAdvanceGen.v) *)
+Module M_C12_twolevel_source_is_model.
+Import GenTwo.
+Theorem C12_twolevel_source_is_model :
+  forall (p bs : Z) (st : Actions.storage) (tr : NAdvance.traj) (ops : list Online.op) (s : Online.st),
+         Online.construct (Online.KTwo p bs st tr) = Actions.Ok s ->
+         grun_ops (cfg_of p bs st tr) [GenLang2.FS two_prog_model] g_init ops = Online.run_ops s ops.
+Proof. exact (@GenTwo.two_from_start). Qed.
+Print Assumptions C12_twolevel_source_is_model.
+End M_C12_twolevel_source_is_model.
 
